@@ -240,6 +240,98 @@ def dispatch(rep, s, tsrc, fns, structs, vvariants, base):
     return None, None
 
 
+def number_dispatch(rep, s, tsrc, fns, structs, vvariants, base):
+    """integer literals: the text must be <class>(std's rendering of the value), not the source spelling (`007` is not Python)"""
+    viol = []
+    mains = [f for f in fns.values() if f.short == "transpile_lit" and f.params and "PyScriptGenerator" in f.params[0][1]]
+    lf = structs.get("Literal") or []
+    local = set(re.findall(r"^\s*(?:pub(?:\([^)]*\))?\s+)?fn (\w+)", tsrc, re.M)) - {"transpile_lit", "load_builtin_types_if_not"}
+    for kind in ("Nat",):
+        ob = Obligation(dict(base, functions=["PyScriptGenerator::transpile_lit"], shape="hir::Literal with value ValueObj::%s(n)" % kind, symbolic=["n, the token (opaque)"], bounds={}),
+                        key="literal/number-dispatch/%s" % kind)
+        rep.add(ob)
+        if len(mains) != 1 or "value" not in lf or "token" not in lf:
+            ob.update(verdict=BROKEN, reason="PyScriptGenerator::transpile_lit / struct Literal not found as expected")
+            continue
+        nval, tok = const("lit_number_value"), const("lit_token")
+
+        def kernel(flow, P, callee, args):
+            short = re.sub(r"::<.*$", "", callee).rsplit("::", 1)[-1]
+            a = args[-1]
+            try:
+                at = flow.term(flow.referent(P, a)) if isinstance(a, (Ref, tuple)) else a
+            except Unsupported:
+                at = None
+            subs = list(_subterms(at)) if at is not None and z3.is_expr(at) else []
+            src = "value" if any(x.eq(nval) for x in subs) else ("token" if any(x.eq(tok) for x in subs) else "?")
+            return ("strbuf", [("piece", "kernel", (short, src))])
+
+        def as_items(flow, P, x):
+            v = flow.deref_all(P, x)
+            if isinstance(v, tuple) and v and v[0] == "strbuf":
+                return list(v[1])
+            if isinstance(v, tuple) and v and v[0] == "strlit":
+                return [z3.IntVal(ord(c)) for c in v[1]]
+            if z3.is_expr(v):
+                subs = list(_subterms(v))
+                std = "ToString" in str(v.decl()) and any(x.eq(nval) for x in subs) and "ValueObj" not in str(v.decl())
+                return [("piece", "std-number" if std else "display", str(v.decl())[:60])]
+            raise Unsupported("not a string value: %r" % (v,))
+        mods = [(r"^(?:PyScriptGenerator::|transpile::)?(?:%s)(?:::<.*>)?$" % "|".join(sorted(local)), kernel)] + fmt_models(as_items)
+        try:
+            flow = StrFlow(fns, mains[0], mods, {"ValueObj": vvariants, "Option": ["None", "Some"]}, max_steps=8000)
+            fields = [const("lit_" + f) for f in lf]
+            fields[lf.index("value")] = ("agg", "ty::value::ValueObj::%s" % kind, [nval])
+            fields[lf.index("token")] = tok
+            outs = flow.run("bb0", stop_at=(), pre={"_1": const("generator"), "_2": ("agg", "hir::Literal", fields)}, pc=list(S.BASE_AXIOMS))
+            np_, texts, bad = 0, set(), None
+            for Q, end in outs:
+                if end != "return" or not flow.feasible(Q.pc):
+                    continue
+                np_ += 1
+                r = Q.locals.get("_0")
+                if not (isinstance(r, tuple) and r and r[0] == "strbuf"):
+                    bad = bad or "the result is not built text"
+                    continue
+                txt = "".join(chr(x.as_long()) if z3.is_expr(x) else {"kernel": "<%s(%s)>" % x[2] if x[1] == "kernel" else "", "std-number": "<std>", "display": "<class>"}.get(x[1], "<?>") for x in r[1])
+                texts.add(txt)
+                if txt != "<class>(<std>)":
+                    bad = bad or "the text is `%s`" % txt
+            ob["queries"] = flow.queries
+            ob["detail"] = {"paths": np_, "text": sorted(texts)}
+            if np_ == 0:
+                ob.update(verdict=BROKEN, reason="no path of transpile_lit returns (vacuous encoding)")
+            elif bad:
+                ob.update(verdict=VIOLATED, reason="an integer literal is not written as <class>(std's rendering of its value): %s - the source spelling is copied (a decimal literal with leading zeros is a SyntaxError in Python)" % bad)
+                viol.append(ob)
+            else:
+                ob.update(verdict=HELD, reason="an integer literal is written as <class>(<%s as ToString>::to_string(value)) on all %d paths" % ({"Nat": "u64", "Int": "i32"}[kind], np_))
+        except Unsupported as e:
+            ob.update(verdict=INCONCLUSIVE, reason="unsupported-construct: " + str(e)[:200])
+    return viol
+
+
+def number_e2e(s, viol):
+    if not viol:
+        return
+    tdir = os.path.join(s.root, "native")
+    rc, out, dt = sh(["cargo", "build", "--offline", "--bin", "erg"], cwd=s.src, env=s.env(CARGO_TARGET_DIR=tdir), timeout=2400)
+    exe = os.path.join(tdir, "debug", "erg")
+    f = os.path.join(s.root, "num.er")
+    open(f, "w").write("print! 007\nprint! 1_000\nprint! 0x10\n")
+    res = None
+    if rc == 0 and os.path.exists(exe):
+        rc1, o1, _ = sh([exe, "run", f], env=s.env(), timeout=120)
+        rc2, o2, _ = sh([exe, "transpile", f], env=s.env(), timeout=120)
+        py = f[:-3] + ".py"
+        rc3, o3, _ = sh(["python3", py], env=s.env(), timeout=120) if os.path.exists(py) else (None, "no script", 0)
+        res = {"source": "print! 007; print! 1_000; print! 0x10", "erg run": [rc1, o1[-100:]], "python3 of the transpiled script": [rc3, re.sub(r"\x1b\[[0-9;]*m", "", o3)[-300:]], "differs": (rc1, o1) != (rc3, o3)}
+    for ob in viol:
+        ob["end_to_end"] = res or {"note": "erg did not build"}
+        if not res or not res["differs"]:
+            ob.update(verdict=INCONCLUSIVE, reason="%s; the replay program behaves the same both ways" % ob["reason"])
+
+
 ERG_ESC = {'"': '\\"', "\\": "\\\\", "\n": "\\n", "\r": "\\r", "\0": "\\0"}
 
 
@@ -281,6 +373,8 @@ def run(tier, seed, only=None):
         fns = M.parse_mir(text, want=["<impl at crates/erg_compiler/transpile.rs"] + sorted(free))
         del text
         K, src = dispatch(rep, s, tsrc, fns, structs, vvariants, base)
+        nviol = [] if (only and "number" not in only and "dispatch" not in only) else number_dispatch(rep, s, tsrc, fns, structs, vvariants, base)
+        number_e2e(s, nviol)
         kmax = 3 if tier == "quick" else 4
         obs = {k: Obligation(dict(base, shape="a string of %d character(s)%s" % (k, " between the token's quotes" if src == "token" else ""),
                                   symbolic=["each character: any Unicode scalar value (0..=0x10FFFF without surrogates)"], bounds={"chars": k}), key="py-string-kernel/chars=%d" % k)
